@@ -423,7 +423,14 @@ def values_equal(a, b, rtol=1e-9, atol=0.0):
                 return False
             if a.dtype == object or b.dtype == object:
                 return all(values_equal(x, y, rtol, atol) for x, y in zip(a.ravel(), b.ravel()))
-            return bool(np.allclose(a, b, rtol=rtol, atol=atol, equal_nan=True))
+            # normwise: an element may differ by rtol times the LARGEST finite magnitude of the two arrays
+            # (cancellation in matmul / linear_solve / sums leaves residues like -3e-17 where the exact
+            # result is 0); non-finite entries must match exactly
+            with np.errstate(all="ignore"):
+                mags = np.concatenate([np.abs(a).ravel(), np.abs(b).ravel()]).astype(float)
+                mags = mags[np.isfinite(mags)]
+                scale = float(mags.max()) if mags.size else 0.0
+                return bool(np.allclose(a, b, rtol=0.0, atol=atol + rtol * scale, equal_nan=True))
         if isinstance(a, (tuple, list)) and isinstance(b, (tuple, list)):
             return len(a) == len(b) and all(values_equal(x, y, rtol, atol) for x, y in zip(a, b))
         if isinstance(a, int) and isinstance(b, int):
